@@ -717,7 +717,7 @@ bool pristine_native_hash(const std::string &spec, const std::string &target, un
     close(pfd[0]);
     dup2(pfd[1], 1);
     std::string a3 = strf("%#lx", fmask), a4 = strf("%d", n), a5 = strf("%llu", (unsigned long long)ds);
-    execl("/proc/self/exe", "orcsim", "pristine", spec.c_str(), target.c_str(), a3.c_str(), a4.c_str(), a5.c_str(), (char *)nullptr);
+    execl(g_self_exe.c_str(), "orcsim", "pristine", spec.c_str(), target.c_str(), a3.c_str(), a4.c_str(), a5.c_str(), (char *)nullptr);
     _exit(127);
   }
   close(pfd[1]);
